@@ -105,6 +105,7 @@ type (
 		where         expr
 		order         []orderKey
 		limit, offset expr
+		distinct      bool
 	}
 	insertStmt struct {
 		table     string
@@ -368,11 +369,15 @@ func (p *parser) selectList() ([]expr, bool, *Error) {
 }
 
 func (p *parser) selectStmt() (any, *Error) {
+	distinct := p.acceptKw("distinct")
+	if !distinct {
+		p.acceptKw("all")
+	}
 	cols, _, err := p.selectList()
 	if err != nil {
 		return nil, err
 	}
-	s := selectStmt{cols: cols}
+	s := selectStmt{cols: cols, distinct: distinct}
 	if err := p.expectKw("from"); err != nil {
 		return nil, err
 	}
